@@ -370,7 +370,10 @@ def stepCanister (d : DState) (ws : List String) : DState × String :=
     let b (x : Bool) : Nat := if x then 1 else 0
     -- specification (C03): the new anchor lies on the chain that was being served and, after an
     -- un-paused ingestion opportunity, no advance is withheld
-    (d, s!"popped={k} onchain={b onchain} pending={b pending} ## popped={k} onchain=1 pending=0")
+    -- … and a block is on record in the stable header store at every height below the stable height
+    let n := s.utxos.nextHeight
+    let haveN := ((List.range n).filter (fun h => (AList.find? s.headers.byHeight h).isSome)).length
+    (d, s!"popped={k} onchain={b onchain} pending={b pending} recorded={haveN}/{n} ## popped={k} onchain=1 pending=0 recorded={n}/{n}")
   | ["q", "info"], some s => (d, showInfo s.blockchainInfo)
   | ["q", "utxos", tok, filter, lim], some s =>
     if (s.guard (envOf d) s.network true).isSome then (d, "trap") else
